@@ -322,6 +322,15 @@ def g_bits(rng, n):
     except OverflowError:
         chk("clip with a Python int bound beyond int64 raises OverflowError", True)
     chk("clip with a Python int bound inside int64 works", torch.equal(torch.clip(torch.tensor([1e30]), -(2**62), 2**62), torch.tensor([float(2**62)])))
+    u8 = torch.tensor([200, 3], dtype=torch.uint8)
+    chk("uint8 << k wraps modulo 256", (u8 << 5).tolist() == [(200 << 5) % 256, (3 << 5) % 256] and (u8 << 5).dtype == torch.uint8)
+    v8 = u8.clone()
+    v8 += 4096 + 7
+    chk("uint8 += python int wraps modulo 256", v8.tolist() == [(200 + 7) % 256, 10] and v8.dtype == torch.uint8)
+    chk("int32 tensor + uint8 tensor -> int32, zero-extended", (torch.tensor([1, 1], dtype=torch.int32) + u8).tolist() == [201, 4] and (torch.tensor([1, 1], dtype=torch.int32) + u8).dtype == torch.int32)
+    chk("int8 x uint8 -> int16", (torch.tensor([1], dtype=torch.int8) + torch.tensor([1], dtype=torch.uint8)).dtype == torch.int16)
+    r8 = torch.randint(0, 2**8, (500,), dtype=torch.uint8)
+    chk("randint honours dtype=uint8 over [0, 256)", r8.dtype == torch.uint8 and int(r8.max()) <= 255)
     chk("two's complement & / ~", (torch.tensor([-1], dtype=torch.int32) & ~torch.tensor(255)).item() == -256)
     r = torch.randint(0, 2**5, (1000,), dtype=torch.int32)
     chk("randint range/dtype", r.dtype == torch.int32 and int(r.min()) >= 0 and int(r.max()) < 32)
@@ -361,6 +370,8 @@ def g_copy(rng, n):
     chk("_get_obj_state returns the instance dict", st == {"tag": 5})
     rb = torch._utils._rebuild_parameter_with_state(q.data, True, __import__("collections").OrderedDict(), {"tag": 7})
     chk("_rebuild_parameter_with_state restores the state", isinstance(rb, nn.Parameter) and rb.tag == 7)
+    so = nn.Parameter(torch.randn(2))
+    chk("_set_obj_state sets a dict state as instance attributes and returns the object", torch._utils._set_obj_state(so, {"tag": 9}) is so and so.tag == 9)
     m = nn.Linear(2, 2)
     m.weight.tag = 1
     w = m.weight
